@@ -9,7 +9,7 @@ CHECKS = {
         category="exploration",
         text="Hypothesis-generated molecules / ensembles (all elements, every enum member, nested attributes incl. bytes, numpy arrays and int keys, NaN/inf "
              "coordinates, 0 atoms, 0 conformers) are stored in fresh MoleculeLibrary / ConformerLibrary files with four buffer sizes and read back in-session, "
-             "in a later session and through a new handle; optionally the same objects are then edited in place and stored again under new keys (old keys keep the old state), and molecules are also stored as a float32-coordinate subclass; an independent field-by-field snapshot decides equality at float32 precision. Legacy (v1) files are "
+             "in a later session and through a new handle; optionally the same objects are then edited in place and stored again under new keys (old keys keep the old state), molecules are also stored as a float32-coordinate subclass, objects may carry a parallel bond, libraries are opened with several `encoding=` values; an independent field-by-field snapshot decides equality at float32 precision. Legacy (v1) files are "
              "additionally produced by the harness' own encoder and read through the library. A round-trip oracle over generated inputs is exactly what the "
              "input-quantified statement needs.",
         design_ref="DESIGN.md section 5, C01",
@@ -116,7 +116,7 @@ CHECKS = {
         category="exploration",
         text="Model-based stateful testing: ensembles built through six constructor routes, then generated op lists (append of Molecule / Structure / CartesianGeometry, extend "
              "by list / ensemble / iterator, scale, translate 1-D/2-D, rotate by one matrix or by one matrix per conformer, writes through ens[i], five iteration patterns incl. nested / interleaved / zip, slices, "
-             "per-conformer dumps read back, serialisation via v2 codec / pickle / library) are interpreted on the ensemble and on three numpy arrays; rectangularity and "
+             "conformer handles kept and used after later growth, rows addressed by negative index, per-conformer dumps read back, serialisation via v2 codec / pickle / library) are interpreted on the ensemble and on three numpy arrays; rectangularity and "
              "view consistency are checked after every step, and every geometry or ensemble that was handed in must stay untouched.",
         design_ref="DESIGN.md section 5, C14",
         note="Appended geometries have the ensemble's atom count; a new conformer's weight may be any real number; ConformerEnsemble(molecule) coordinate values not asserted.",
@@ -125,7 +125,7 @@ CHECKS = {
     "C15": dict(
         category="exploration",
         text="Exhaustive leg: all labelled simple graphs on <=5 (quick) / <=6 (thorough) atoms with every start atom, every (start, neighbour) direction and every bond; random leg: "
-             "generated forests with ring closures up to 40 atoms as Connectivity / Molecule / ConformerEnsemble; matching leg: patterns cut from the source (wildcard, own bond "
+             "generated forests with ring closures up to 40 atoms as Connectivity / Molecule / ConformerEnsemble / Substructure view of a bigger molecule, atoms named to the API as objects, integer indices or labels; matching leg: patterns cut from the source (wildcard, own bond "
              "types, absent; source and pattern atoms carry unrelated atom types; bonds of every BondType member; query - in-place edit - query again). References written for this harness: BFS distances, low-link bridge finder (cross-checked with networkx), backtracking induced-embedding search; the "
              "SET of returned mappings must equal the reference set.",
         design_ref="DESIGN.md section 5, C15",
@@ -201,7 +201,7 @@ CHECKS = {
         category="fault_enumeration",
         text="(a) harness-owned schedules: all sequences of <=2/<=3 sessions over 14 session kinds (11 failing, faults injected at body (Exception, KeyboardInterrupt, SystemExit) / encoder / flush-time "
              "backend write / end_write / end_read / begin_write / begin_read) on handles living in three processes, with a lock probe from a fresh process after every session; "
-             "(b) real 8-16 process schedules, the processes reaching the library through three spellings of its path (plain, sub/.., symlinked directory), with random delays whose oracle (timestamps taken inside the protected body, hand-over after failing sessions) "
+             "(b) a handle constructor of another process held (harness-owned gate) right before its first lock acquisition while this process creates the library and completes sessions; (c) real 8-16 process schedules, the processes reaching the library through three spellings of its path (plain, sub/.., symlinked directory), with random delays whose oracle (timestamps taken inside the protected body, hand-over after failing sessions) "
              "cannot misfire on correct locking. Real interleavings are sampled, only session-granular schedules are exhaustive.",
         design_ref="DESIGN.md section 5, C04",
         note="Threads sharing a handle and nested same-process sessions are outside the claim; CLOCK_MONOTONIC is system-wide on Linux; fault injection by "
